@@ -10,6 +10,13 @@
 //!   w   P level fail ops rel seed dk    MultithreadedWriter under release order `rel`
 //!   wst level fail ops seed dk          single-threaded Writer alone (ties the model's ST writer)
 //!   r   P frames rel seed level corrupt MultithreadedReader read block by block to the end
+//!   rh  P frames gzi ops segs policy seed  op history (read, read_exact, fill_buf/consume, read to the
+//!                                       end, seek, seek_with_index, get_mut, finish) over
+//!                                       MultithreadedReader; the gate controller releases gated
+//!                                       inflate tasks one at a time by `policy` whenever no new task
+//!                                       has arrived for a while; obs = per op `<result>@<vpos>`,
+//!                                       compared with NV.Bgzf.MtReaderOps run under the schedule `segs`
+//!   rhst frames gzi ops                 the same history on the single-threaded Reader (C02's model)
 //! Implementation-only oracles:
 //!   rs  P seed nblocks level            random read/read_exact/seek op sequences, MT vs ST, delayed inflate tasks
 //!   rfd P seed level                    frame-level error, then seek, then finish: the error must not vanish
@@ -34,6 +41,10 @@ use nv::{
     Case, CaseWriter, Obs, Outcome, Rng,
     adversary::{Fault, FaultySink},
 };
+
+#[path = "../shared/c03_hist.rs"]
+mod c03_hist;
+use c03_hist as hist;
 
 const MAX_BUF: usize = 65495;
 const EOF_BLOCK: [u8; 28] = [
@@ -336,6 +347,57 @@ impl Ctl {
     }
 }
 
+impl Ctl {
+    /// Online controller: whenever no new task has reached the gate for `quiet`, release one of
+    /// the waiting tasks chosen by `policy` (0 oldest, 1 newest, 2 random, 3 any but the oldest,
+    /// 4 alternating newest/oldest).  Returns the number of releases that were not the oldest.
+    fn control_policy(&self, policy: u64, seed: u64, quiet: Duration) -> usize {
+        let mut rng = Rng::new(seed);
+        let mut flip = false;
+        let mut reordered = 0;
+        let mut st = self.st.lock().unwrap();
+        loop {
+            if st.app_done {
+                st.open_all = true;
+                self.cv.notify_all();
+                return reordered;
+            }
+            let n0 = st.arrived.len();
+            st = self.cv.wait_timeout(st, quiet).unwrap().0;
+            if st.app_done || st.arrived.len() != n0 {
+                continue;
+            }
+            let mut cand: Vec<u64> = st.arrived.difference(&st.released).copied().collect();
+            if cand.is_empty() {
+                continue;
+            }
+            cand.sort_unstable();
+            let k = cand.len();
+            let i = match policy {
+                0 => 0,
+                1 => k - 1,
+                2 => rng.below(k as u64) as usize,
+                3 => {
+                    if k == 1 {
+                        0
+                    } else {
+                        1 + rng.below(k as u64 - 1) as usize
+                    }
+                }
+                _ => {
+                    flip = !flip;
+                    if flip { k - 1 } else { 0 }
+                }
+            };
+            if i > 0 {
+                reordered += 1;
+            }
+            st.released.insert(cand[i]);
+            self.cv.notify_all();
+        }
+    }
+}
+
 /// Wait until every task spawned so far on the global pool has finished: external spawns are
 /// injected FIFO, so when all pool threads sit in our barrier tasks nothing older is left.
 fn quiesce() {
@@ -394,6 +456,41 @@ fn watched<T: Send + 'static>(
         }
     };
     (w, ctl_res)
+}
+
+/// like `watched`, the gate being driven by `Ctl::control_policy`
+fn watched_policy<T: Send + 'static>(
+    ctl: &Arc<Ctl>,
+    policy: u64,
+    seed: u64,
+    quiet: Duration,
+    limit: (Duration, Duration),
+    f: impl FnOnce() -> T + Send + 'static,
+) -> (Watched<T>, usize) {
+    let (tx, rx) = mpsc::channel();
+    let c2 = ctl.clone();
+    thread::spawn(move || {
+        let r = nv::guarded(AssertUnwindSafe(f));
+        c2.app_done();
+        let _ = tx.send(r);
+    });
+    let c3 = ctl.clone();
+    let controller = thread::spawn(move || c3.control_policy(policy, seed, quiet));
+    let w = match rx.recv_timeout(limit.0) {
+        Ok(Outcome::Done(v)) => Watched::Done(v),
+        Ok(Outcome::Panicked(m)) => Watched::Panicked(m),
+        Err(_) => {
+            ctl.open_all();
+            match rx.recv_timeout(limit.1) {
+                Ok(_) => Watched::Hung(true),
+                Err(_) => Watched::Hung(false),
+            }
+        }
+    };
+    // the controller leaves its loop when the application is done (or was given up on)
+    ctl.app_done();
+    let reordered = controller.join().unwrap_or(0);
+    (w, reordered)
 }
 
 // -------------------------------------------------------------------------------------------
@@ -1176,6 +1273,255 @@ fn run_rce(c: &Case) -> Obs {
 }
 
 // -------------------------------------------------------------------------------------------
+// op histories over the multithreaded reader (modelled: NV.Bgzf.MtReaderOps)
+
+/// every get_mut is directly followed by a seek to a virtual position, and nothing follows finish:
+/// the histories on which MultithreadedReader must agree with Reader op by op
+fn hist_guarded(ops: &[hist::Op]) -> bool {
+    ops.iter().enumerate().all(|(i, o)| match o {
+        hist::Op::GetMut => matches!(ops.get(i + 1), Some(hist::Op::Seek(..))),
+        hist::Op::Finish => i + 1 == ops.len(),
+        _ => true,
+    })
+}
+
+fn run_rh(c: &Case) -> Obs {
+    let p = c.u(0);
+    if let Err(o) = check_pool(p) {
+        return o;
+    }
+    let fs = hist::parse_frames(&c.args[1]);
+    let index = hist::parse_index(&c.args[2]);
+    let ops = hist::parse_ops(&c.args[3]);
+    let (policy, seed) = (c.u(5), c.u(6));
+    let l = match hist::assemble(&fs) {
+        Ok(l) => l,
+        Err(e) => return Obs::fail("-", "harness-stale-case", e),
+    };
+    let ctx = format!("P={p} frames={} ops={} policy={policy}", fs.len(), c.args[3]);
+
+    // single-threaded reference on the ops both readers have
+    let st_ops: Vec<hist::Op> = ops
+        .iter()
+        .copied()
+        .filter(|o| !matches!(o, hist::Op::GetMut | hist::Op::Finish))
+        .collect();
+    let st = {
+        let gz = bgzf::gzi::Index::from(index.clone());
+        let mut r = bgzf::io::Reader::new(Cursor::new(l.bytes.clone()));
+        hist::exec(&mut r, &st_ops, &gz)
+    };
+
+    let ctl = Ctl::new(Kind::Inflate, None);
+    ctl.install();
+    let (bytes2, ops2, index2) = (l.bytes.clone(), ops.clone(), index.clone());
+    let (w, reordered) = watched_policy(&ctl, policy, seed, Duration::from_micros(500), LIMIT, move || {
+        let gz = bgzf::gzi::Index::from(index2);
+        let mut r = bgzf::io::MultithreadedReader::new(Cursor::new(bytes2));
+        hist::exec(&mut r, &ops2, &gz)
+        // dropping the reader finishes it
+    });
+    let timeouts = ctl.st.lock().unwrap().gate_timeouts;
+    end_case(&ctl);
+    let mt = match w {
+        Watched::Done(x) => x,
+        Watched::Panicked(m) => return Obs::fail("Panic", "mtr-panic", format!("{ctx} {m}")),
+        Watched::Hung(a) => {
+            return Obs::fail(
+                "Hang",
+                if a { "mtr-history-hang-until-gates-opened" } else { "mtr-history-hang" },
+                ctx,
+            );
+        }
+    };
+    let nseeks = ops.iter().filter(|o| matches!(o, hist::Op::Seek(..) | hist::Op::SeekU(_) | hist::Op::GetMut)).count();
+    let _ = reordered;
+    let o = Obs::ok(if mt.is_empty() { "_".to_string() } else { mt.join(" ") }, fs.len() >= 3 && nseeks >= 1);
+    if timeouts > 0 {
+        return o.with_verdict(Err(("mtr-gate-timeout".into(), ctx)));
+    }
+    // the property: op by op the results and virtual positions of the single-threaded reader
+    if hist_guarded(&ops) {
+        let mt_common: Vec<&String> = ops
+            .iter()
+            .zip(&mt)
+            .filter(|(o, _)| !matches!(o, hist::Op::GetMut | hist::Op::Finish))
+            .map(|(_, s)| s)
+            .collect();
+        let n = mt_common.len().max(st.len());
+        if let Some(i) = (0..n).find(|&i| mt_common.get(i).copied() != st.get(i)) {
+            return o.with_verdict(Err((
+                "mtr-history-differs-from-st".into(),
+                format!(
+                    "{ctx} common-op#{i} mt=[{}] st=[{}]",
+                    mt_common.get(i).map_or("-", |s| s.as_str()),
+                    st.get(i).map_or("-", |s| s.as_str())
+                ),
+            )));
+        }
+        // (errors both readers report alike -- UnexpectedEof of read_exact, InvalidData of a gzi
+        // query outside the index -- are results, not failures)
+        if let Some(bad) = mt.iter().find(|s| s.contains("Panic")) {
+            return o.with_verdict(Err(("mtr-history-panic-on-valid-file".into(), format!("{ctx} {bad}"))));
+        }
+    }
+    o
+}
+
+fn run_rhst(c: &Case) -> Obs {
+    let fs = hist::parse_frames(&c.args[0]);
+    let index = hist::parse_index(&c.args[1]);
+    let ops = hist::parse_ops(&c.args[2]);
+    let l = match hist::assemble(&fs) {
+        Ok(l) => l,
+        Err(e) => return Obs::fail("-", "harness-stale-case", e),
+    };
+    let gz = bgzf::gzi::Index::from(index);
+    let mut r = bgzf::io::Reader::new(Cursor::new(l.bytes.clone()));
+    let st = hist::exec(&mut r, &ops, &gz);
+    Obs::ok(if st.is_empty() { "_".to_string() } else { st.join(" ") }, fs.len() >= 3)
+}
+
+/// a random well-formed file: data frames (writer-made or hand-framed), empty frames anywhere,
+/// usually the EOF marker at the end
+fn gen_hist_file(rng: &mut Rng) -> Vec<hist::FSpec> {
+    let nb = rng.range(1, 11) as usize;
+    let mut fs = vec![];
+    for _ in 0..nb {
+        let (method, len) = match rng.below(12) {
+            0 => ("e".to_string(), 0usize),
+            1 => ("h6".to_string(), 0),
+            2 => (format!("w{}", rng.pick(&[0u64, 1, 6])), 1),
+            3 => ("w1".to_string(), 65280),
+            4 => ("h6".to_string(), 65536),
+            5 => ("h1".to_string(), rng.range(60000, 65536) as usize),
+            _ => (format!("{}{}", rng.pick(&["w", "h"]), rng.pick(&[1u64, 6])), rng.range(1, 3000) as usize),
+        };
+        let (a, m) = (rng.below(251), rng.range(1, 250));
+        let csize = hist::build_frame(&method, &hist::pattern(len, a, m)).len();
+        fs.push(hist::FSpec { method, len, a, m, csize });
+    }
+    if rng.chance(5, 6) {
+        fs.push(hist::FSpec { method: "e".into(), len: 0, a: 0, m: 1, csize: 28 });
+    }
+    fs
+}
+
+fn gen_hist_ops(rng: &mut Rng, l: &hist::Layout, with_inner: bool) -> Vec<hist::Op> {
+    use hist::Op;
+    let file_len = l.bytes.len() as u64;
+    let seek = |rng: &mut Rng| -> Op {
+        if rng.chance(1, 10) {
+            return Op::Seek(file_len, 0);
+        }
+        let (c, _, len) = l.tbl[rng.below(l.tbl.len() as u64) as usize];
+        let u = if len == 0 {
+            0
+        } else {
+            match rng.below(4) {
+                0 => 0,
+                1 => len - 1,
+                2 => len.min(65535),
+                _ => rng.below(len as u64) as usize,
+            }
+        };
+        Op::Seek(c, u.min(65535) as u16)
+    };
+    let nops = rng.range(3, 12);
+    let mut ops = vec![];
+    for _ in 0..nops {
+        match rng.below(16) {
+            0..=3 => ops.push(Op::Read(*rng.pick(&[1usize, 7, 100, 4096, 65536, 70000]))),
+            4 => ops.push(Op::Exact(*rng.pick(&[1usize, 13, 500, 66000]))),
+            5 => ops.push(Op::ExactStd(*rng.pick(&[1usize, 13, 500, 66000]))),
+            6 => ops.push(Op::Fill),
+            7 => ops.push(Op::Consume(*rng.pick(&[0usize, 1, 50, 70000]))),
+            8..=10 => ops.push(seek(rng)),
+            11 => ops.push(Op::SeekU(rng.below(l.total as u64 + 2))),
+            12 => ops.push(Op::ReadAll(*rng.pick(&[1000usize, 65536, 70000]))),
+            13 | 14 if with_inner => {
+                ops.push(Op::GetMut);
+                if rng.chance(3, 4) {
+                    ops.push(seek(rng));
+                }
+            }
+            _ => ops.push(Op::Read(rng.range(1, 300) as usize)),
+        }
+    }
+    if with_inner && rng.chance(1, 2) {
+        ops.push(Op::Finish);
+        if rng.chance(1, 4) {
+            ops.push(Op::Read(1));
+        }
+    }
+    ops
+}
+
+/// arbitrary schedule segments for the model: per pull a list of action numbers
+/// (0 Submit, 1 Start, 2 Take, 3 Emit, 4+t Complete t); disabled actions are no-ops
+fn gen_segs(rng: &mut Rng) -> String {
+    let n = rng.range(0, 10);
+    if n == 0 {
+        return "_".into();
+    }
+    (0..n)
+        .map(|_| {
+            let k = rng.range(0, 14);
+            if k == 0 {
+                "-".to_string()
+            } else {
+                (0..k)
+                    .map(|_| match rng.below(6) {
+                        0 | 1 => rng.below(4).to_string(),
+                        2 => "0".to_string(),
+                        3 => "1".to_string(),
+                        _ => (4 + rng.below(8)).to_string(),
+                    })
+                    .collect::<Vec<_>>()
+                    .join(".")
+            }
+        })
+        .collect::<Vec<_>>()
+        .join(";")
+}
+
+fn gen_rh(rng: &mut Rng, w: &mut CaseWriter, n: u64) {
+    for i in 0..n {
+        let p = pool_for(rng, i + 4);
+        let fs = gen_hist_file(rng);
+        let l = hist::assemble(&fs).expect("fresh frames");
+        let ops = gen_hist_ops(rng, &l, i % 3 != 0);
+        let full = l.full_index();
+        let index = match rng.below(4) {
+            0 => vec![],
+            1 => full[..rng.below(full.len() as u64 + 1) as usize].to_vec(),
+            _ => full,
+        };
+        let policy = [1u64, 2, 3, 4, 1, 0][(i % 6) as usize];
+        w.push(
+            "rh",
+            vec![
+                p.to_string(),
+                hist::fmt_frames(&fs),
+                hist::fmt_index(&index),
+                hist::fmt_ops(&ops),
+                gen_segs(rng),
+                policy.to_string(),
+                rng.next().to_string(),
+            ],
+        );
+        if i % 4 == 0 {
+            let st_ops: Vec<hist::Op> = ops
+                .iter()
+                .copied()
+                .filter(|o| !matches!(o, hist::Op::GetMut | hist::Op::Finish))
+                .collect();
+            w.push("rhst", vec![hist::fmt_frames(&fs), hist::fmt_index(&index), hist::fmt_ops(&st_ops)]);
+        }
+    }
+}
+
+// -------------------------------------------------------------------------------------------
 // generation
 
 fn gen_ops(rng: &mut Rng, big: bool) -> Vec<Op> {
@@ -1308,21 +1654,50 @@ fn generate(rng: &mut Rng, tier: &str, w: &mut CaseWriter) {
             ],
         );
     }
-    // exhaustive: all feasible release orders of up to 5 blocks (thorough) / 4 blocks (quick)
+    // exhaustive: all feasible release orders of 4 blocks (quick) / 5 and 6 blocks (thorough), writer
     {
-        let nb = if thorough { 5 } else { 4 };
-        let pools: &[usize] = if thorough { &[2, 3, 4, 5] } else { &[3] };
-        for &p in pools {
-            let ops: Vec<Op> = (0..nb).flat_map(|i| [Op::W(10 + i), Op::F]).collect();
-            let mut perm: Vec<usize> = (0..nb).collect();
-            let mut all = vec![];
-            permute(&mut perm, 0, &mut all);
-            for rel in all {
-                if feasible(&rel, p, false) {
-                    w.push(
-                        "w",
-                        vec![p.to_string(), "6".into(), "-".into(), fmt_ops(&ops), fmt_rel(&rel), "7".into(), "0".into()],
-                    );
+        let sweeps: &[(usize, &[usize])] = if thorough { &[(5, &[2, 3, 4, 5]), (6, &[2, 3, 4, 6])] } else { &[(4, &[3])] };
+        for &(nb, pools) in sweeps {
+            for &p in pools {
+                let ops: Vec<Op> = (0..nb).flat_map(|i| [Op::W(10 + i), Op::F]).collect();
+                let mut perm: Vec<usize> = (0..nb).collect();
+                let mut all = vec![];
+                permute(&mut perm, 0, &mut all);
+                for rel in all {
+                    if feasible(&rel, p, false) {
+                        w.push(
+                            "w",
+                            vec![p.to_string(), "6".into(), "-".into(), fmt_ops(&ops), fmt_rel(&rel), "7".into(), "0".into()],
+                        );
+                    }
+                }
+            }
+        }
+    }
+    // exhaustive: all feasible inflate orders of 4 frames (quick) / 5 and 6 frames (thorough), reader
+    // (the last frame is the EOF marker)
+    {
+        let sweeps: &[(usize, &[usize])] = if thorough { &[(5, &[2, 3, 4, 5]), (6, &[2, 3, 4, 6])] } else { &[(4, &[2])] };
+        for &(nf, pools) in sweeps {
+            let lens: Vec<usize> = (0..nf - 1).map(|i| if i == 2 { 0 } else { 40 + i }).collect();
+            let (file, _) = build_file(&lens, 11, 6, 1);
+            let (frames, _) = split_frames(&file);
+            let spec: Vec<String> = frames
+                .iter()
+                .enumerate()
+                .map(|(j, f)| format!("{}:{}:g", f.1, if j < lens.len() { lens[j] } else { 0 }))
+                .collect();
+            for &p in pools {
+                let mut perm: Vec<usize> = (0..nf).collect();
+                let mut all = vec![];
+                permute(&mut perm, 0, &mut all);
+                for rel in all {
+                    if feasible(&rel, p, true) {
+                        w.push(
+                            "r",
+                            vec![p.to_string(), spec.join(","), fmt_rel(&rel), "11".into(), "6".into(), "-".into(), "1".into()],
+                        );
+                    }
                 }
             }
         }
@@ -1416,6 +1791,8 @@ fn generate(rng: &mut Rng, tier: &str, w: &mut CaseWriter) {
             vec![p.to_string(), rng.next().to_string(), rng.range(1, 14).to_string(), "6".into()],
         );
     }
+    // reader op histories against the model NV.Bgzf.MtReaderOps
+    gen_rh(rng, w, 40 * scale);
     for p in [1u64, 2, 4] {
         w.push("rfd", vec![p.to_string(), rng.next().to_string(), "6".into()]);
     }
@@ -1459,6 +1836,8 @@ fn run(c: &Case) -> Obs {
         "wst" => run_wst(c),
         "r" => run_r(c),
         "rs" => run_rs(c),
+        "rh" => run_rh(c),
+        "rhst" => run_rhst(c),
         "rfd" => run_rfd(c),
         "rce" => run_rce(c),
         k => Obs::fail("-", "harness-unknown-kind", k),
@@ -1467,7 +1846,7 @@ fn run(c: &Case) -> Obs {
 
 fn case_pool(c: &Case) -> u64 {
     match c.kind.as_str() {
-        "w" | "r" | "rs" | "rfd" | "rce" => c.u(0),
+        "w" | "r" | "rs" | "rh" | "rfd" | "rce" => c.u(0),
         _ => 4,
     }
 }
